@@ -212,6 +212,9 @@ def check_read_conf(ctx, rng):
             env_loc_kind = ['abs', 'rel-cwd', 'missing-abs', 'none', 'rel-file'][ci % 5]
             for k in envs:
                 env[k] = value_for(k, env_loc_kind, variant + 1)
+                if ci % 7 == 3:
+                    env[k] = ''         # an override that is present but empty is still the override (e.g. export VAR=$UNSET)
+                    ctx.event('environment-override-present-but-empty')
                 os.environ[f'NDN_CLIENT_{k.upper()}'] = env[k]
             exp, conf_path = ref_resolve(env, files, defaults, default_locs, os.path.exists)
             w = {'env': env, 'existing_files': [os.path.relpath(c, root) for i, c in enumerate(cands) if i in layout], 'file_keys': fkeys,
@@ -341,7 +344,7 @@ def run(ctx):
     check_read_conf(ctx, rng)
     check_faces(ctx, rng)
     check_keychain(ctx, rng)
-    for k in ('candidate-file-is-a-symlink', 'home-0', 'home-1', 'home-2', 'configuration', 'audit-open-checked', 'face-uri-supported', 'face-uri-unsupported', 'keychain', 'store-scheme-refused'):
+    for k in ('environment-override-present-but-empty', 'candidate-file-is-a-symlink', 'home-0', 'home-1', 'home-2', 'configuration', 'audit-open-checked', 'face-uri-supported', 'face-uri-unsupported', 'keychain', 'store-scheme-refused'):
         ctx.need_event(k)
     ctx.assumptions = ['the candidate file list of the platform is redirected into the sandbox (harness wrapper); the layering logic is the library\'s',
                        'platform default store locations exist in the sandbox HOME', 'values with %, more than one colon, or duplicate keys are outside the generated domain']
